@@ -106,6 +106,19 @@ try:
             sha = StrictTestament3.from_revision(r, b"rev-1").as_sha1()
         if sha == ref_sha:
             bad("bounded::C41.sensitivity", "perturbed field: %s" % what, "testament unchanged", "a different testament")
+    # message pairs: two revisions whose STORED messages differ must have different testaments (whitespace is content too)
+    pairs = [("fix the thing", "fix the thing "), ("fix the thing", "fix the thing\t"), ("fix the thing", " fix the thing"),
+             ("fix the thing", "fix  the thing"), ("one\n\ntwo", "one\n \ntwo"), ("one\ntwo", "one \ntwo"), ("one\ntwo", "one\n two"),
+             ("one\ntwo", "one\ntwo\t"), ("one\ntwo", "one two"), ("a\nb\nc", "a\nc\nb")]
+    for i, (ma, mb) in enumerate(pairs):
+        n += 1; nontrivial += 1
+        ra, rb = build("ma_%d" % i, "2a", message=ma), build("mb_%d" % i, "2a", message=mb)
+        with ra.lock_read(), rb.lock_read():
+            if ra.get_revision(b"rev-1").message == rb.get_revision(b"rev-1").message:
+                continue          # the repository itself stores them identically: nothing to attest
+            for cls in (StrictTestament3, StrictTestament, Testament):
+                if cls.from_revision(ra, b"rev-1").as_text() == cls.from_revision(rb, b"rev-1").as_text():
+                    bad("bounded::C41.sensitivity", "messages %r vs %r (%s)" % (ma, mb, cls.__name__), "identical testaments", "different testaments")
     # parent order (left parent vs merged parent order is part of the revision)
     n += 1; nontrivial += 1
     ra, rb = build("par_a", "2a", extra_parent=True), build("par_b", "2a", extra_parent=True, swap_parents=True)
@@ -114,7 +127,7 @@ try:
                 StrictTestament3.from_revision(ra, b"rev-1").as_sha1() == StrictTestament3.from_revision(rb, b"rev-1").as_sha1():
             bad("bounded::C41.sensitivity", "perturbed field: order of the merged parents", "testament unchanged", "a different testament")
     print(json.dumps({"evaluations": n, "distinct_nontrivial": nontrivial, "exhaustive": False,
-                      "rule": "one base revision (two files, a directory, a symlink, properties) in 2a and pack-0.92; every listed single-field perturbation; "
+                      "rule": "one base revision (two files, a directory, a symlink, properties) in 2a and pack-0.92; every listed single-field perturbation; ten message pairs differing in whitespace / line order; "
                               "non-trivial = a perturbation case", "samples": samples, "violations": viol, "label": "bounded"}))
 finally:
     shutil.rmtree(base, ignore_errors=True)
